@@ -663,9 +663,22 @@ fn child_fds(ch: &tiny_std::process::Child) -> Vec<i32> {
     v
 }
 
+thread_local! {
+    /// what a scenario found wrong by itself (beyond the descriptor table of the calling process)
+    static COMPLAINT: std::cell::RefCell<Option<String>> = const { std::cell::RefCell::new(None) };
+}
+
+/// descriptors above 2 of this process that an exec keeps (the harness's own, opened without close-on-exec)
+fn inheritable_fds() -> Vec<i64> {
+    snapshot().keys().copied().filter(|&fd| fd > 2 && unsafe { libc::fcntl(fd, libc::F_GETFD) } & libc::FD_CLOEXEC == 0).map(i64::from).collect()
+}
+
 fn spawn_scn(e: &Env, stdio: [u8; 3]) -> Held {
     let bin = us(&e.helper);
     let dump = p(e, "dump.json");
+    let dump_path = e.root.join("dump.json");
+    let _ = std::fs::remove_file(&dump_path);
+    let inheritable = inheritable_fds();
     let mut c = ok_or_none!(Command::new(&bin));
     let zero = us(b"0");
     let flags = us(if stdio[0] >= 2 { b"-i" } else { b"-" });
@@ -707,6 +720,16 @@ fn spawn_scn(e: &Env, stdio: [u8; 3]) -> Held {
                 let _ = o.read_to_end(&mut sink);
             }
             let _ = ch.wait();
+            // the spawned program's own view: what spawn opened for its plumbing (sync pipe, the child's ends of the
+            // stream pipes, /dev/null) must not be open there beyond the three streams
+            if let Some(d) = std::fs::read(&dump_path).ok().and_then(|b| serde_json::from_slice::<serde_json::Value>(&b).ok()) {
+                if let Some(fds) = d["fds"].as_array() {
+                    let extra: Vec<String> = fds.iter().filter(|f| f["fd"].as_i64().is_some_and(|n| n > 2 && !inheritable.contains(&n))).map(|f| format!("{}", f["fd"])).collect();
+                    if !extra.is_empty() {
+                        COMPLAINT.with(|c| *c.borrow_mut() = Some(format!("the spawned program finds descriptors {} open that nobody handed to it (its table: {:?}; inherited from the caller by design: {inheritable:?})", extra.join(", "), fds.iter().filter_map(|f| f["fd"].as_i64()).collect::<Vec<_>>())));
+                    }
+                }
+            }
             let owned = child_fds(&ch);
             Held::of(owned, ch)
         }
@@ -1058,6 +1081,7 @@ fn run_case_inner(env: &Env, name: &str, op: Op, fault: Option<(u32, i32)>, faul
     sc::verif::plan(rules);
     sc::verif::log_begin();
     let parent = unsafe { libc::getpid() };
+    COMPLAINT.with(|c| *c.borrow_mut() = None);
     let held = catch(|| op(env));
     if unsafe { libc::getpid() } != parent {
         unsafe { libc::_exit(0) };
@@ -1066,6 +1090,9 @@ fn run_case_inner(env: &Env, name: &str, op: Op, fault: Option<(u32, i32)>, faul
     // issued there); the log is split at this point
     let log = sc::verif::log_peek();
     let held = held.map_err(|(loc, msg)| Failure::new(format!("{name}|panic|{loc}"), format!("{name} panicked at {loc}: {msg}")))?;
+    if let Some(what) = COMPLAINT.with(|c| c.borrow_mut().take()) {
+        fail!(format!("{name}|left a descriptor of its plumbing open in the spawned program"), "{name} (fault {fault:?}): {what}");
+    }
 
     let after = snapshot();
     let new_fds: Vec<i32> = after.keys().filter(|k| !before.contains_key(k)).copied().collect();
